@@ -207,6 +207,7 @@ func (x *Exec) incrementalScriptFor4(timeoutMs int, prop, class string, only, sk
 // standaloneScript for one obligation.
 func (x *Exec) standaloneScript(o *Obligation, solver string, model bool) string {
 	var sb strings.Builder
+	sb.WriteString("; obligation: " + o.Name + "\n; " + o.Text + "\n")
 	if model {
 		if solver == "cvc5" {
 			sb.WriteString("(set-option :produce-models true)\n")
@@ -548,4 +549,40 @@ func (x *Exec) FindVacuity(dir string) string {
 		return "global axioms are unsatisfiable"
 	}
 	return fmt.Sprintf("fact #%d makes the assumptions unsatisfiable: %s", lo, x.facts[lo-1])
+}
+
+// quickUnsat: is (facts so far) && extra unsatisfiable? Used to prune dispatch branches semantically.
+// Only "unsat" answers are used (pruning an infeasible branch is sound; keeping a feasible-looking one is always sound).
+func (x *Exec) quickUnsat(extra *Term) bool {
+	if x.scratch == "" {
+		d, err := os.MkdirTemp("/var/tmp", "govc-q-")
+		if err != nil {
+			return false
+		}
+		x.scratch = d
+	}
+	var ts []*Term
+	ts = append(ts, x.facts...)
+	ts = append(ts, extra)
+	var sb strings.Builder
+	sb.WriteString("(set-option :timeout 1500)\n")
+	sb.WriteString(x.header("z3"))
+	em := NewEmitter(x.tt, &sb)
+	for n := range preludeDefined {
+		em.decl["f:"+n] = true
+		em.decl["s:"+n] = true
+	}
+	em.Declare(append(append([]*Term{}, ts...), x.strLitTerms()...))
+	sb.WriteString(x.globalAxioms())
+	em.Define(ts)
+	for _, f := range ts {
+		sb.WriteString("(assert " + em.Str(f) + ")\n")
+	}
+	sb.WriteString("(check-sat)\n")
+	x.nQuick++
+	f := filepath.Join(x.scratch, fmt.Sprintf("q%d.smt2", x.nQuick))
+	os.WriteFile(f, []byte(sb.String()), 0o644)
+	out, _ := runSolver("z3-new", f, 3)
+	os.Remove(f)
+	return firstStatus(out) == "unsat"
 }
